@@ -52,8 +52,16 @@ fn clone_into_missing_directory(ctx: &mut Ctx) {
     let flag = *gen::t(|t| t.pick(&["--force-create", "--force-create", "--seed-output", ""]));
     // ... or in one that exists and is reached through a symbolic link and "..": the kernel
     // resolves lnk/.. to the parent of the link's target, not to the directory the link is in
-    let out = *gen::t(|t| t.pick(&["nodir/out.bin", "new/sub/out.bin", "dir.d/deeper/out.bin", "lnk/../out.bin", "lnk/../out.bin"]));
+    // ... or the output path names an existing directory (directly or through a link): today the
+    // open fails; a clone that "helpfully" writes dir/<archive name> instead creates a file that
+    // is not the output it was given (S16-B) ... or the path is ordinary and the *server* is odd:
+    // it ignores Range and answers every request with 200 and the whole archive (S16-A: a clone
+    // that then spools the archive to a side file)
+    let out = *gen::t(|t| t.pick(&["nodir/out.bin", "new/sub/out.bin", "dir.d/deeper/out.bin", "lnk/../out.bin", "lnk/../out.bin", "dir.d", "dir.d/", "dirlnk", "out.bin"]));
     let through_link = out.starts_with("lnk/");
+    let is_dir = matches!(out, "dir.d" | "dir.d/" | "dirlnk");
+    let http = http || out == "out.bin";
+    let range_ignored = out == "out.bin";
     scen::quiet(|| {
         let _ = std::fs::remove_file("a.cba");
         let _ = std::fs::create_dir_all("dir.d");
@@ -61,9 +69,24 @@ fn clone_into_missing_directory(ctx: &mut Ctx) {
             let _ = std::fs::create_dir_all("elsewhere/sub");
             let _ = std::os::unix::fs::symlink("elsewhere/sub", "lnk");
         }
+        if out == "dirlnk" {
+            let _ = std::os::unix::fs::symlink("dir.d", "dirlnk");
+        }
+        if out == "out.bin" {
+            let _ = std::fs::remove_file("out.bin");
+        }
     });
+    let planted = is_dir && gen::chance(1, 2);
+    if planted {
+        // a file of the name such a clone would pick is already there
+        scen::put_file("dir.d/a", b"earlier content of dir.d/a");
+    }
     let server = if http {
-        Some(scen::serve(std::sync::Arc::new(m.archive.clone())))
+        let s = scen::serve(std::sync::Arc::new(m.archive.clone()));
+        if range_ignored {
+            s.lock().unwrap().default_fault = Some(crate::net::NetFault::IgnoreRange);
+        }
+        Some(s)
     } else {
         scen::put_file("a.cba", &m.archive);
         None
@@ -94,7 +117,8 @@ fn clone_into_missing_directory(ctx: &mut Ctx) {
     let events: Vec<(sys::Op, String, i64, i64)> = sys::with(|s| s.log.iter().filter(|e| matches!(e.op, sys::Op::Open | sys::Op::Unlink | sys::Op::Rename | sys::Op::Mkdir)).map(|e| (e.op, s.path_name(e.path).to_string(), e.a, e.ret)).collect());
     for (op, path, a, ret) in &events {
         match op {
-            sys::Op::Open if a & WRITE_FLAGS != 0 && path != out => {
+            // (the seam names a path after one level of link resolution: dirlnk is logged as dir.d)
+            sys::Op::Open if a & WRITE_FLAGS != 0 && path.trim_end_matches('/') != out.trim_end_matches('/') && !(out == "dirlnk" && path.trim_end_matches('/') == "dir.d") => {
                 ctx.fail("opened-for-writing", format!("clone opened {:?} with flags {:#o} (result {}): only the output may be opened for writing, created or truncated; {}", path, a, ret, desc));
                 return;
             }
@@ -117,7 +141,23 @@ fn clone_into_missing_directory(ctx: &mut Ctx) {
         ctx.fail("sandbox-changed", format!("the clone reported success but the file the output path resolves to (elsewhere/out.bin) does not hold the source; {}", desc));
         return;
     }
-    simkit::count(if through_link { "probe:clone-through-symlinked-directory" } else { "probe:clone-into-missing-directory" });
+    if planted && scen::get_file("dir.d/a").as_deref() != Some(&b"earlier content of dir.d/a"[..]) {
+        ctx.fail("sandbox-changed", format!("the file dir.d/a inside the directory named as output was changed or removed; {}", desc));
+        return;
+    }
+    if is_dir && r.outcome.is_success() {
+        ctx.fail("sandbox-changed", format!("the output path names a directory and the clone reported success; {}", desc));
+        return;
+    }
+    simkit::count(if through_link {
+        "probe:clone-through-symlinked-directory"
+    } else if is_dir {
+        "probe:clone-onto-a-directory"
+    } else if range_ignored {
+        "probe:clone-from-a-server-that-ignores-range"
+    } else {
+        "probe:clone-into-missing-directory"
+    });
     ctx.verdict.nontrivial = true;
     ctx.verdict.shape = 7_000 + out.len() as u64 * 8 + flag.len() as u64 + ((http as u64) << 10);
 }
